@@ -1,6 +1,7 @@
 import Lean.Data.Json
 import DDV.Gen.Emit
 import DDV.Gen.ManTree
+import DDV.Gen.DslHir
 
 /-!
   `ddv-driver gen` — one case line in (GEN_PROTOCOL.md §1), one answer line out:
@@ -210,6 +211,143 @@ partial def parseMVal (j : Json) : P MVal :=
         | .ok _ => pure .float
         | _ => pure .other
 
+
+/-! ### The DSL tree dumped by harness/src/gen/hir.rs -/
+
+def parseHLit (j : Json) : P HLit := do
+  let s ← asStr j
+  let (neg, digits) := if s.startsWith "-" then (true, (s.drop 1).toString) else (false, s)
+  match digits.toNat? with
+  | some n => pure { neg := neg, mag := n }
+  | none => throw s!"hir: bad literal {s}"
+
+def parseHAttrs (j : Json) : P (List HAttr) := do
+  (← asArr j).mapM fun a =>
+    match a.getObjVal? "doc", a.getObjVal? "cfg" with
+    | .ok (.str s), _ => pure (HAttr.doc s)
+    | _, .ok (.str s) => pure (HAttr.cfg s)
+    | _, _ => throw "hir: bad attribute"
+
+def parseHRepeat (j : Json) : P HRepeat := do
+  pure { count := ← parseHLit (← reqKey j "count"), stride := ← parseHLit (← reqKey j "stride") }
+
+def parseHBlockItem (j : Json) : P HBlockItem := do
+  match ← asStr (← reqKey j "k") with
+  | "AddressOffset" => do pure (.addressOffset (← parseHLit (← reqKey j "v")))
+  | "Repeat" => do pure (.repeat_ (← parseHRepeat j))
+  | k => throw s!"hir: bad block item {k}"
+
+def parseHRegItem (j : Json) : P HRegItem := do
+  match ← asStr (← reqKey j "k") with
+  | "Access" => do pure (.access (← parseAccess (← asStr (← reqKey j "v"))))
+  | "ByteOrder" => do pure (.byteOrder (← parseBo (← asStr (← reqKey j "v"))))
+  | "BitOrder" => do pure (.bitOrder (← parseBito (← asStr (← reqKey j "v"))))
+  | "Address" => do pure (.address (← parseHLit (← reqKey j "v")))
+  | "SizeBits" => do pure (.sizeBits (← parseHLit (← reqKey j "v")))
+  | "ResetValueInt" => do pure (.resetInt (← parseHLit (← reqKey j "v")))
+  | "ResetValueArray" => do pure (.resetArray (← (← asArr (← reqKey j "v")).mapM asNat))
+  | "Repeat" => do pure (.repeat_ (← parseHRepeat j))
+  | "AllowBitOverlap" => do pure (.allowBitOverlap (← asBool (← reqKey j "v")))
+  | "AllowAddressOverlap" => do pure (.allowAddressOverlap (← asBool (← reqKey j "v")))
+  | k => throw s!"hir: bad register item {k}"
+
+def parseHCmdItem (j : Json) : P HCmdItem := do
+  match ← asStr (← reqKey j "k") with
+  | "ByteOrder" => do pure (.byteOrder (← parseBo (← asStr (← reqKey j "v"))))
+  | "BitOrder" => do pure (.bitOrder (← parseBito (← asStr (← reqKey j "v"))))
+  | "Address" => do pure (.address (← parseHLit (← reqKey j "v")))
+  | "SizeBitsIn" => do pure (.sizeBitsIn (← parseHLit (← reqKey j "v")))
+  | "SizeBitsOut" => do pure (.sizeBitsOut (← parseHLit (← reqKey j "v")))
+  | "Repeat" => do pure (.repeat_ (← parseHRepeat j))
+  | "AllowBitOverlap" => do pure (.allowBitOverlap (← asBool (← reqKey j "v")))
+  | "AllowAddressOverlap" => do pure (.allowAddressOverlap (← asBool (← reqKey j "v")))
+  | k => throw s!"hir: bad command item {k}"
+
+def parseHVariant (j : Json) : P HVariant := do
+  let value ← match optKey j "value" with
+    | none => pure none
+    | some (.str "default") => pure (some HEnumValue.default)
+    | some (.str "catch_all") => pure (some HEnumValue.catchAll)
+    | some v => do pure (some (HEnumValue.specified (← parseHLit (← reqKey v "int"))))
+  pure { attrs := ← parseHAttrs (← reqKey j "attrs"), name := ← asStr (← reqKey j "name"), value := value }
+
+def parseHField (j : Json) : P HField := do
+  let conv ← match optKey j "conv" with
+    | none => pure none
+    | some c =>
+      match optKey c "direct" with
+      | some p => do pure (some (HConv.direct (← asStr p) (← asBool (← reqKey c "try"))))
+      | none => do
+        let vs ← (← asArr (← reqKey c "variants")).mapM parseHVariant
+        pure (some (HConv.enum (← asStr (← reqKey c "enum")) vs (← asBool (← reqKey c "try"))))
+  let a ← reqKey j "addr"
+  let addr ← match ← asStr (← reqKey a "k") with
+    | "Integer" => do pure (HFieldAddr.integer (← parseHLit (← reqKey a "v")))
+    | "Range" => do pure (HFieldAddr.range (← parseHLit (← reqKey a "start")) (← parseHLit (← reqKey a "end")))
+    | "RangeInclusive" => do pure (HFieldAddr.rangeIncl (← parseHLit (← reqKey a "start")) (← parseHLit (← reqKey a "end")))
+    | k => throw s!"hir: bad field address {k}"
+  pure { attrs := ← parseHAttrs (← reqKey j "attrs"), name := ← asStr (← reqKey j "name"),
+         access := ← optWith j "access" parseAccess, base := ← parseBase (← asStr (← reqKey j "base")),
+         conv := conv, addr := addr }
+
+def parseHFields (j : Json) (k : String) : P (Option (List HField)) :=
+  match optKey j k with
+  | none => pure none
+  | some fs => do pure (some (← (← asArr fs).mapM parseHField))
+
+partial def parseHObj (j : Json) : P HObj := do
+  let attrs ← parseHAttrs (← reqKey j "attrs")
+  let name ← asStr (← reqKey j "name")
+  match ← asStr (← reqKey j "k") with
+  | "block" => do
+    pure (.block attrs name (← (← asArr (← reqKey j "items")).mapM parseHBlockItem)
+      (← (← asArr (← reqKey j "objects")).mapM parseHObj))
+  | "register" => do
+    pure (.register attrs name (← (← asArr (← reqKey j "items")).mapM parseHRegItem)
+      (← (← asArr (← reqKey j "fields")).mapM parseHField))
+  | "command" =>
+    match optKey j "value" with
+    | none => pure (.command attrs name none)
+    | some v =>
+      match optKey v "basic" with
+      | some l => do pure (.command attrs name (some (.basic (← parseHLit l))))
+      | none => do
+        pure (.command attrs name (some (.extended (← (← asArr (← reqKey v "items")).mapM parseHCmdItem)
+          (← parseHFields v "in") (← parseHFields v "out"))))
+  | "buffer" => do
+    pure (.buffer attrs name (← optWith j "access" parseAccess) (← (optKey j "address").mapM parseHLit))
+  | "ref" => do pure (.ref attrs name (← parseHObj (← reqKey j "object")))
+  | k => throw s!"hir: bad object kind {k}"
+
+def parseHConfig (j : Json) : P HConfig := do
+  let v ← reqKey j "v"
+  match ← asStr (← reqKey j "k") with
+  | "DefaultRegisterAccess" => do pure (.defaultRegisterAccess (← parseAccess (← asStr v)))
+  | "DefaultFieldAccess" => do pure (.defaultFieldAccess (← parseAccess (← asStr v)))
+  | "DefaultBufferAccess" => do pure (.defaultBufferAccess (← parseAccess (← asStr v)))
+  | "DefaultByteOrder" => do pure (.defaultByteOrder (← parseBo (← asStr v)))
+  | "DefaultBitOrder" => do pure (.defaultBitOrder (← parseBito (← asStr v)))
+  | "RegisterAddressType" => do pure (.registerAddressType (← asStr v))
+  | "CommandAddressType" => do pure (.commandAddressType (← asStr v))
+  | "BufferAddressType" => do pure (.bufferAddressType (← asStr v))
+  | "NameWordBoundaries" => do pure (.nameWordBoundaries (← (← asArr v).mapM asStr))
+  | "DefmtFeature" => do pure (.defmtFeature (← asStr v))
+  | k => throw s!"hir: bad config {k}"
+
+def parseHDevice (j : Json) : P HDevice := do
+  pure { configs := ← (← asArr (← reqKey j "configs")).mapM parseHConfig,
+         objects := ← (← asArr (← reqKey j "objects")).mapM parseHObj }
+
+/-- The DSL lowering on the generator's own tree, when the case carries one (`none`: not a DSL case, or
+    a text the grammar rejected). -/
+def hirRoute (syn : Syntax) (j : Json) : P (Option (M Device)) :=
+  match syn, optKey j "hir" with
+  | .dsl, some t =>
+    match t.getObjVal? "$parse_error" with
+    | .ok _ => pure none
+    | _ => do pure (some (hirTransform (← parseHDevice t)))
+  | _, _ => pure none
+
 /-- The manifest front end on the parser's own tree, when the case carries one the model can read
     (`none`: DSL case, no tree, a text the parser rejected, or a map with a non-string key). -/
 def treeRoute (syn : Syntax) (j : Json) : P (Option (M Device)) :=
@@ -228,7 +366,9 @@ def runCase (j : Json) : P Json := do
   let dev ← asStr (← reqKey j "device_name")
   let names := parseNames (← reqKey j "names")
   let treeOnly := match optKey j "tree_only" with | some (.bool true) => true | _ => false
-  let tree ← treeRoute syn j
+  let tree ← match ← treeRoute syn j with
+    | some t => pure (some t)
+    | none => hirRoute syn j
   -- the abstract route (ADEF lowered by `lowerManifest` / `lowerDsl`) and, for manifests, the key-level route
   -- (`manTransform` on the tree the real parser built); the answer is the key-level one when there is one
   let viaTree : Option (M Lir) := tree.map fun d => d >>= transformMir names dev
@@ -244,7 +384,7 @@ def runCase (j : Json) : P Json := do
     | some r =>
       let fa := (facts names viaAdef).compress
       let ft := (facts names r).compress
-      pure (Json.mkObj [("id", id), ("facts", facts names r), ("route", Json.str "tree"),
+      pure (Json.mkObj [("id", id), ("facts", facts names r), ("route", Json.str (if syn == .dsl then "hir" else "tree")),
                         ("routes_agree", Json.bool (fa == ft)),
                         ("adef_route_facts", if fa == ft then Json.null else facts names viaAdef)])
 
